@@ -205,7 +205,7 @@ func main() {
 		sc, o := wd.gen(seed, *tier)
 		if o == nil || (o.Violation == nil && o.Infra == "") {
 			prep := o
-			o = wd.run(sc)
+			o = safeRun(wd.run, sc)
 			if prep != nil {
 				o.Steps += prep.Steps
 			}
@@ -269,7 +269,7 @@ func main() {
 				sc = o.Repro
 			}
 			sc.Expect = o.Violation
-			small, evals := shrink(sc, wd.run, *shrinkLim)
+			small, evals := shrink(sc, func(c *Scenario) *Outcome { return safeRun(wd.run, c) }, *shrinkLim)
 			path := filepath.Join(*replayDir, fmt.Sprintf("%s-%d.json", *prop, seed))
 			writeScenario(path, small)
 			sum.Violations = append(sum.Violations, ViolationReport{Rec: small.Expect, Replay: path, Seed: seed, ShrunkIn: evals, Orig: orig})
@@ -294,6 +294,28 @@ func main() {
 		fmt.Fprintln(os.Stderr, "worker:", err)
 		os.Exit(2)
 	}
+}
+
+// safeRun executes a scenario; a panic that escapes the world's own recovery
+// (library code called while building variables or preparing receivers -
+// valid arguments all of them) is reported as a violation of the "nothing but
+// ErrNaN panics / no malformed state" kind rather than crashing the worker.
+func safeRun(run func(*Scenario) *Outcome, sc *Scenario) (o *Outcome) {
+	defer func() {
+		if r := recover(); r != nil {
+			if verifrt.Active() {
+				panic(r) // inside a simulated run: not recoverable here
+			}
+			msg := fmt.Sprint(r)
+			if len(msg) > 300 {
+				msg = msg[:300]
+			}
+			o = &Outcome{Counters: map[string]int{}, Violation: &ViolationRec{Property: sc.Property, Class: "panic-outside-operation", Oracle: "harness",
+				Msg: "the library panicked while the harness prepared the scenario (building a variable or receiver through the public API with valid arguments): " + msg,
+				Sig: "panic-outside-operation"}}
+		}
+	}()
+	return run(sc)
 }
 
 func writeScenario(path string, sc *Scenario) {
@@ -323,7 +345,7 @@ func doReplay(path string) int {
 		fmt.Fprintln(os.Stderr, "replay: unknown property", sc.Property)
 		return 2
 	}
-	o := wd.run(&sc)
+	o := safeRun(wd.run, &sc)
 	if o.Infra != "" {
 		fmt.Println("INFRA", o.Infra)
 		return 2
